@@ -89,6 +89,12 @@ NeedsTerminator(t, ty) ==
   \/ (t.c \in {"X", "x"} /\ Eff(t.w, 5, 3) \in {1, 4, 5})
 FieldGroup(c) == CASE c \in {"h", "H", "K", "k"} -> "hour" [] c \in {"a", "b"} -> "period" [] c \in {"X", "x"} -> "zone" [] OTHER -> c
 
+AsciiLetters == {"a","b","c","d","e","f","g","h","i","j","k","l","m","n","o","p","q","r","s","t","u","v","w","x","y","z",
+                 "A","B","C","D","E","F","G","H","I","J","K","L","M","N","O","P","Q","R","S","T","U","V","W","X","Y","Z"}
+\* characters that may stand unquoted between fields: anything that cannot be taken for part of a
+\* number, a sign or a name (punctuation, blanks, non-ASCII characters)
+BareLiteral(c) == ~IsDigit(c) /\ c \notin AsciiLetters /\ c \notin {"+", "\\"}
+
 Unambiguous(p, ty, v) ==
   LET T == p  n == Len(T) IN
   /\ \A i \in 1..n, j \in 1..n : (i < j /\ IsSym(T[i], ty) /\ IsSym(T[j], ty)) => FieldGroup(T[i].c) # FieldGroup(T[j].c)
@@ -102,7 +108,7 @@ Unambiguous(p, ty, v) ==
   /\ (ZoneSym(p, ty) # "" => CarriesOffset(p, ty, v.off))
   \* a character of the pattern that is neither quoted nor a symbol is copied as is; digits, signs and
   \* letters could be mistaken for parts of a neighbouring field, so only punctuation and blanks are used bare
-  /\ \A i \in 1..n : (T[i].k = "run" /\ ~IsSym(T[i], ty)) => T[i].c \in {"-", "/", ":", ".", " ", ",", "_", Quote}
+  /\ \A i \in 1..n : (T[i].k = "run" /\ ~IsSym(T[i], ty)) => BareLiteral(T[i].c)
   /\ \A i \in 1..n : T[i].k = "text" => T[i].text # <<>>
 
 (***************************************************************************)
